@@ -234,7 +234,7 @@ def hoist_obligations(ctx: Ctx, I: Interp) -> None:
         head = meta[0].key if meta else None
         ctx.check(okm, "C11.R3", "<meta charset=\"utf-8\"> is inserted at the start of the head", HOIST, f"meta insert {[short(e.value) for e in meta]}",
                   "the head does not start with Tag('meta', charset='utf-8') inserted at index 0", witness="HTMLDocument(tags.html(tags.head(tags.title('t')))).render()")
-        okc = isinstance(head, SObj) and head.origin == "new"
+        okc = (isinstance(head, SObj) and head.origin == "new") or isinstance(head, SNew)
         ctx.check(okc, "C11.R3", "the head that is filled is a copy (the user's head object is not modified)", HOIST, f"head object {short(head)}", "the user's own <head> tag is modified in place")
         gd = [e for e in calls if getattr(e.target, "qual", "").endswith(".get_dependencies")]
         ctx.require(len(gd) == 1, "_hoist_head_content: dependencies collected more or less than once")
